@@ -74,7 +74,7 @@ Qed.
 Section Unroll.
 Variable o : opts.
 
-Definition skipk (k : str) : bool := str_eqb k (attrK o) || str_eqb k (seqK o).
+Definition skipk (k : str) : bool := str_eqb k (attrK o) || str_eqb k (seqK o) || str_eqb k (textK o).
 
 Definition unroll1 (kv : str * value) : list (str * value) :=
   if skipk (fst kv) then []
@@ -90,7 +90,7 @@ Definition triple (kv : str * value) : str * value * res (list sitem) :=
 (* exactly the [kids] expression inside senc *)
 Definition kid_triples (val : entries) : list (str * value * res (list sitem)) :=
   flat_map (fun kv =>
-              if str_eqb (fst kv) (attrK o) || str_eqb (fst kv) (seqK o) then []
+              if str_eqb (fst kv) (attrK o) || str_eqb (fst kv) (seqK o) || str_eqb (fst kv) (textK o) then []
               else match snd kv with
                    | VList l => map (fun x => (fst kv, x, senc o x (fst kv))) l
                    | _ => [(fst kv, snd kv, senc o (snd kv) (fst kv))]
@@ -101,7 +101,7 @@ Proof.
   unfold kid_triples, unroll. induction val as [|[k v] t IH]; [reflexivity|].
   cbn [flat_map]. rewrite map_app, <- IH. f_equal.
   unfold unroll1, skipk. cbn [fst snd].
-  destruct (str_eqb k (attrK o) || str_eqb k (seqK o)); [reflexivity|].
+  destruct (str_eqb k (attrK o) || str_eqb k (seqK o) || str_eqb k (textK o)); [reflexivity|].
   destruct v; try reflexivity.
   rewrite map_map. reflexivity.
 Qed.
@@ -140,6 +140,14 @@ Proof.
     (* old = VList l *)
     rewrite map_app. cbn [map]. reflexivity.
   - rewrite (unroll_set _ _ _ Hk Hv El). reflexivity.
+Qed.
+Lemma unroll_set_skipped k v na : skipk k = true -> unroll (set k v na) = unroll na.
+Proof.
+  intros Hk. unfold unroll. induction na as [|[k' v'] t IH]; cbn [set flat_map].
+  - unfold unroll1. cbn [fst]. rewrite Hk. reflexivity.
+  - destruct (str_eqb k k') eqn:E; cbn [flat_map].
+    + apply str_eqb_eq in E. subst k'. unfold unroll1 at 1 3. cbn [fst]. rewrite Hk. reflexivity.
+    + rewrite IH. reflexivity.
 Qed.
 End Unroll.
 
@@ -236,7 +244,7 @@ Lemma sattrs_attr_ents val a :
 Proof.
   intros H. unfold sattrs. rewrite H.
   rewrite (seq_sort_recovers o (fun kv => snd kv) _ (attr_ents 0 a) (Permutation_refl _)
-             (attr_ents_sorted 0 a) (attr_ents_maps 0 a)).
+             (attr_ents_sorted 0 a)).
   cbn [bind]. rewrite sattrs_loop_attr_ents. reflexivity.
 Qed.
 
@@ -247,7 +255,7 @@ Lemma sattrs_attr_perm val a m :
 Proof.
   intros H P. unfold sattrs. rewrite H.
   rewrite (seq_sort_recovers o (fun kv => snd kv) _ (attr_ents 0 a) P
-             (attr_ents_sorted 0 a) (attr_ents_maps 0 a)).
+             (attr_ents_sorted 0 a)).
   cbn [bind]. rewrite sattrs_loop_attr_ents. reflexivity.
 Qed.
 End Attrs.
